@@ -158,6 +158,7 @@ def execute(built, runs, ctl, gate_events=0.0, gate_saves=0.0, write_once=True,
     rt.set_session(sess)
     ros = [RunObs(t, v) for t, v in runs]
     obs.runs = ros
+    extra_kwargs = extra_kwargs or built.prog.get('extra_inputs')
     chart0 = built.chart
     meta_obj = {'caller': 'rv', 'n': 1}
     obs.meta_before = dict(meta_obj)
